@@ -27,6 +27,9 @@ pub fn inputs() -> Vec<Vec<u8>> {
   v.push(long2);
   v.push(big1);
   v.push(big2);
+  // inputs equal to the labels the protocol uses internally
+  v.push(b"ppoprf_derive_client_input".to_vec());
+  v.push(b"ppoprf_finalize".to_vec());
   v
 }
 
@@ -556,7 +559,7 @@ pub fn spec() -> PropSpec {
     checks: vec![
       Check {
         name: "exchanges",
-        rule: "per server (tag lists [0,1,7,255], [7,3] unsorted, [1,1,2] with a repeat, [255,128,0], [9]; thorough: 3 keys each): every registered tag x 14 inputs (empty, 1 byte, 64 B, 4 KiB, pairs sharing a 39-byte / 4095-byte prefix requested back-to-back in both orders) x 12 blindings (crafted 1, 2, l-1, 2^252, 2^64, 2^128, 2^192, 0x01 repeated, 2^252-2^128; 3 fresh) x {verifiable, not; the non-verifiable requests carry the blinding factor through its public scalar/byte conversions before unblinding}: unblinded == server's evaluation of the input point == (k+PRF(tag))^-1 H(input); finalised output equal across all requests; injective over (tag, input); requests fresh and != input point; distinct = exchanges",
+        rule: "per server (tag lists [0,1,7,255], [7,3] unsorted, [1,1,2] with a repeat, [255,128,0], [9]; thorough: 3 keys each): every registered tag x 16 inputs (two of them equal to the protocol's internal labels; empty, 1 byte, 64 B, 4 KiB, pairs sharing a 39-byte / 4095-byte prefix requested back-to-back in both orders) x 12 blindings (crafted 1, 2, l-1, 2^252, 2^64, 2^128, 2^192, 0x01 repeated, 2^252-2^128; 3 fresh) x {verifiable, not; the non-verifiable requests carry the blinding factor through its public scalar/byte conversions before unblinding}: unblinded == server's evaluation of the input point == (k+PRF(tag))^-1 H(input); finalised output equal across all requests; injective over (tag, input); requests fresh and != input point; distinct = exchanges",
         gen: |tier| {
           let mut v = vec![];
           for t in 0..tag_lists().len() {
